@@ -75,7 +75,7 @@ class Cx:
         self.guards.append((name, obj, repr(S.deep_state(obj, self.namer))))
 
     def secondary(self, obj):
-        if S.kind_of(obj) in ("form", "expr", "integral"):
+        if S.kind_of(obj) in ("form", "expr", "integral", "baseform"):
             self.secondaries.append(obj)
         return obj
 
@@ -139,14 +139,12 @@ def do_event(h, evname, ti):
     if outcome is None:
         if isinstance(res, tuple) and len(res) == 2 and res[0] == "value":
             outcome = "value"
-        elif S.kind_of(res) in ("form", "expr", "integral"):
+        elif S.kind_of(res) in ("form", "expr", "integral", "baseform"):
             if any(res is o for o in h.objs if o is not None):
                 outcome = "same-object"
             else:
                 primary = res
                 outcome = S.kind_of(res)
-        elif S.kind_of(res) == "baseform":
-            outcome = "baseform:" + type(res).__name__
         else:
             outcome = "other:" + type(res).__name__
     h.objs.append(primary)
@@ -265,6 +263,10 @@ CORE3 = (
     "measure_reconf",
     "integral_reconstruct",
     "integral_to_form",
+    "action_identity",
+    "bf_action",
+    "bf_arith",
+    "bf_accessors",
     "op_abs",
     "op_arith",
     "integrate",
